@@ -1554,6 +1554,61 @@ def rule_mount_scope(ctx, facts, rule):
 
 
 
+def rule_whole_token_inherited(ctx, facts, rule):
+    """A span created under a parent inherits the parent's whole collect token: one item per trace the parent belongs to (a span made by
+    enter_with_parents has several). In fastrace::span nothing takes 'the first' / 'some' of the items issue_collect_token() yields --
+    an item-wise selection hands the child the membership of one trace only, and which one depends on the order the parents were listed."""
+    SEL = re.compile(r"Iterator>?::(next|nth|last|take|take_while|skip|skip_while|find\w*|filter\w*|step_by|min\w*|max\w*|position|reduce|fold)$")
+    prov = Prov(facts)
+    bad, n = [], 0
+    for p, fn in facts.fns.items():
+        if fn.crate != "fastrace" or not p.startswith("fastrace::span::") or EXCLUDE.search(p):
+            continue
+        issues = fn.calls_re(r"span::SpanInner::issue_collect_token$", cleanup=False)
+        if not issues:
+            continue
+        n += len(issues)
+        for b in fn.calls():
+            t = fn.term(b)
+            if fn.blocks[b]["cleanup"] or not t["args"] or not SEL.search(t["callee"]):
+                continue
+            if t["callee"].endswith("::next") and fn.on_cycle(b):
+                continue        # a `for` loop over all items
+            src = prov.of_operand(fn, t["args"][0])
+            if any(v[0] == "call" and v[1].endswith("issue_collect_token") for o in src for v in o.via) or \
+                    any(o.kind == "call" and str(o.key).endswith("issue_collect_token") for o in src):
+                bad.append((p, fn.loc(b), t["callee"].rsplit("::", 1)[1]))
+    ctx.check(not bad and n >= 3, rule, "fastrace::span::SpanInner::issue_collect_token", "-",
+              "in fastrace::span every consumer of issue_collect_token() takes all items (collect / flat_map / a loop), none selects among them",
+              "%d issue sites" % n, "selecting consumers: %s (issue sites found: %d, 3 confirmed by hand on the pinned tree)" % (bad, n), extra="whole-token")
+
+
+def rule_record_fields_final(ctx, facts, rule, fields=(".trace_id", ".span_id", ".parent_id", ".name", ".begin_time_unix_ns", ".duration_ns")):
+    """A record's ids, name and times are fixed where the record is built (amend_span / amend_local_span): nothing assigns to them
+    afterwards. (A later pass that 'repairs' parents -- adopting orphans, flattening -- delivers a tree the program did not create.)"""
+    bad, n = [], 0
+    for p, fn in facts.fns.items():
+        if fn.crate != "fastrace" or EXCLUDE.search(p):
+            continue
+        for b, blk in enumerate(fn.blocks):
+            if blk["cleanup"]:
+                continue
+            for st in blk["stmts"]:
+                if st["k"] != "assign" or not st["lhs"]["p"]:
+                    continue
+                flds = [q for q in st["lhs"]["p"] if q != "*"]
+                if not flds or flds[-1] not in fields:
+                    continue
+                l, f2 = root_local(fn, {"k": "copy", "l": st["lhs"]["l"], "p": [q for q in st["lhs"]["p"][:-1]]})
+                tys = fn.locals[l] + " " + fn.locals[st["lhs"]["l"]]
+                if "SpanRecord" in tys and "RawSpan" not in fn.locals[st["lhs"]["l"]]:
+                    n += 1
+                    bad.append((p, fn.loc(b), flds[-1]))
+    ctx.check(not bad, rule, "fastrace::collector::SpanRecord", "-",
+              "no field of a built SpanRecord that identifies or times it (trace_id, span_id, parent_id, name, begin, duration) is assigned after construction",
+              "no assignment sites", "assignments to a record's fields: %s" % bad, extra="record-final")
+
+
 def rule_record_attachments_only_mounted(ctx, facts, rule):
     """Who may add to a finished record: events and properties are appended to a SpanRecord in mount_danglings only, which looks the
     record up by the id the attachment was made under. Any other site that pushes onto `record.events` / `record.properties` hands a
